@@ -9,10 +9,10 @@ import Rivaas.Spec.BindAll
 import Rivaas.Lemmas.BindPath
 /-
 Driver for C04. Case line:
-  <id> <G|T|B> <tag 0..4> <maxDepth> <maxSlice> <maxMap> <csv> <baseAuto> <nconv> { <leaf type key> <converter> }* <Ty> <init Val>
+  <id> <G|T|B> <tag 0..4> <maxDepth> <maxSlice> <maxMap> <csv> <baseAuto> <nconv> { <leaf type key> <converter> }* <allErrors> <evB> <evC> <viaBinder> <Ty> <init Val>
        <nkeys> { <key> <nvals> <val>* }*        (entry B: <nsrc> { <tag> <nkeys> { <key> <nvals> <val>* }* }*)
        <ntbl> { <string> <i10> <i0> <u10> <u0> <f> <t> <d> <j> <nopq> { <kind> <rendering> }* <nconv> { <converter> <rendering> }* }*
-       => O <Val> | E <n> <name>* <D|L|M|C> | X
+       => (O <Val> | E <n> <name>* <D|L|M|C> | X) V <FieldBound B> <Done B> <FieldBound C> <Done C> <Stats.FieldsBound|-1>
   Ty  ::= P <code> | R Ty | L Ty | M Ty | T <n> { <name> <exported> <anon> <q> <p> <f> <h> <c> <default> Ty }*
   Val ::= i <int> | u <nat> | f <bits> | b <0|1> | s <str> | t <str> | n | p Val | l <n> Val* | m <n> {<key> Val}* | S <n> Val*
 -/
@@ -80,6 +80,43 @@ def pTag : P Tag := do
   | 0 => pure .query | 1 => pure .path | 2 => pure .form | 3 => pure .header | 4 => pure .cookie
   | _ => failure
 
+/-- event hooks (WithEvents): which hooks the Binder's / the call's options register (bit 0 FieldBound,
+    bit 1 UnknownField, bit 2 Done; call: -1 = no per-call WithEvents) and how often they were invoked -/
+structure EvObs where
+  fbB : Nat
+  doneB : Nat
+  fbC : Nat
+  doneC : Nat
+  bound : Int      -- Stats.FieldsBound handed to the Done hook that fired (-1: none fired)
+
+def hasFB (m : Nat) : Bool := m % 2 == 1
+def hasDone (m : Nat) : Bool := (m / 4) % 2 == 1
+
+/-- the hook set in force: a per-call WithEvents replaces the Binder's as a whole -/
+def effMask (evB : Nat) (evC : Int) : Nat := if evC < 0 then evB else evC.toNat
+
+/-- the model of the hooks, as the code is: only the hook set in force is invoked; `Done` fires once per call of
+    a package-level function (`defer cfg.finish()`) and never through a Binder (its methods do not call
+    `finish`); `FieldBound` is invoked only when registered, and at least once when the bind changed the
+    destination. The hooks are not part of the C04 statement: they are compared with this model (MI), the
+    oracle (S) says nothing about them. -/
+def eventsAsModel (evB : Nat) (evC : Int) (viaBinder changed : Bool) (o : EvObs) : Bool :=
+  let m := effMask evB evC
+  let fb := if evC < 0 then o.fbB else o.fbC
+  let done := if evC < 0 then o.doneB else o.doneC
+  let fbOther := if evC < 0 then o.fbC else o.fbB
+  let doneOther := if evC < 0 then o.doneC else o.doneB
+  fbOther == 0 && doneOther == 0 &&
+  done == (if hasDone m && !viaBinder then 1 else 0) &&
+  (hasFB m || fb == 0) &&
+  (!(hasFB m && done == 1) || o.bound == (fb : Int)) &&
+  (!(hasFB m && changed) || decide (fb ≥ 1))
+
+def pEvObs : P EvObs := do
+  lit "V"
+  let a ← nat; let b ← nat; let c ← nat; let d ← nat; let e ← int
+  pure { fbB := a, doneB := b, fbC := c, doneC := d, bound := e }
+
 /-- <maxDepth> <maxSlice> <maxMap> <csv> <baseAuto> <nconv> { <leaf type key> <converter> }* <allErrors>
     (with allErrors the observation is `O <Val>` — no error —, `A <n> { E <n> <name>* <class> | F … }*` or `X`) -/
 def pCfg : P (Cfg × Bool) := do
@@ -93,6 +130,9 @@ structure Case where
   tag : Tag
   cfg : Cfg
   all : Bool
+  evB : Nat
+  evC : Int
+  viaBinder : Bool
   ty : Ty
   init : Val
   src : Src
@@ -103,6 +143,9 @@ def pCase : P Case := do
   let e ← tok
   let tag ← pTag
   let cfg ← pCfg
+  let evB ← nat
+  let evC ← int
+  let vb ← bool
   let ty ← pTy
   let init ← pVal
   let pKvs : P (List (Bytes × List Bytes)) := list (do let k ← str; let vs ← list str; pure (k, vs))
@@ -110,7 +153,7 @@ def pCase : P Case := do
   let srcs ← if e == "B" || e == "A" then list (do let t ← pTag; let kvs ← pKvs; pure ({ kind := t, kvs := kvs } : Src))
              else (do let kvs ← pKvs; pure [({ kind := tag, kvs := kvs } : Src)])
   let tbl ← list pEntry
-  pure { entry := e, tag := tag, cfg := cfg.1, all := cfg.2,
+  pure { entry := e, tag := tag, cfg := cfg.1, all := cfg.2, evB := evB, evC := evC, viaBinder := vb,
          ty := ty, init := init, src := srcs.headD { kind := tag, kvs := [] }, srcs := srcs, tbl := tbl }
 
 def pErrClass : P Err := do
@@ -432,26 +475,37 @@ def stepH (id : String) (inp obs : List String) : String :=
   | _, _ => s!"{id} bad-case"
 
 /-- WithAllErrors: the collecting bind against the collecting oracle -/
+def evVerdict (c : Case) (changed : Bool) (ev : EvObs) : Bool × Bool :=
+  (eventsAsModel c.evB c.evC c.viaBinder changed ev, true)
+
 def stepAll (id : String) (c : Case) (obs : List String) : String :=
-  match runP pObsAll obs with
+  match runP (do let o ← pObsAll; let ev ← pEvObs; pure (o, ev)) obs with
   | none => s!"{id} bad-case"
-  | some o =>
+  | some (o, ev) =>
+    let changed := match o with
+      | .done v [] => !(v == c.init)
+      | _ => false
+    let (emi, es) := evVerdict c changed ev
     if !preconditions c then s!"{id} bad-case preconditions" else
     let P := lookupP c.tbl
     match c.ty with
     | .struct fs =>
       if c.entry == "B" || c.entry == "A" then
         let m := bindMultiAll P c.cfg fs c.init c.srcs
-        verdict id (encOutAll m == encObsAll o) (Spec.specMultiAll P c.cfg fs c.init c.srcs o) "-" (encOutAll m)
+        verdict id (encOutAll m == encObsAll o && emi) (Spec.specMultiAll P c.cfg fs c.init c.srcs o && es) "-" (encOutAll m)
       else
         let m := bindAll P c.cfg c.tag c.ty c.init c.src
-        verdict id (encOutAll m == encObsAll o) (Spec.specAll P c.cfg c.tag fs c.init c.src o) "-" (encOutAll m)
+        verdict id (encOutAll m == encObsAll o && emi) (Spec.specAll P c.cfg c.tag fs c.init c.src o && es) "-" (encOutAll m)
     | _ => s!"{id} bad-case type"
 
 def stepPlain (id : String) (c : Case) (obs : List String) : String :=
-  match runP pObs obs with
+  match runP (do let o ← pObs; let ev ← pEvObs; pure (o, ev)) obs with
   | none => s!"{id} bad-case"
-  | some o =>
+  | some (o, ev) =>
+    let changed := match o with
+      | .ok v => !(v == c.init)
+      | _ => false
+    let (emi, es) := evVerdict c changed ev
     if !preconditions c then s!"{id} bad-case preconditions" else
     let P := lookupP c.tbl
     match c.ty with
@@ -459,10 +513,10 @@ def stepPlain (id : String) (c : Case) (obs : List String) : String :=
       if c.entry == "B" || c.entry == "A" then
         -- several sources: bindMultiSource against the folded oracle
         let m := toObs (bindMulti P c.cfg fs c.init c.srcs)
-        verdict id (encObs m == encObs o) (Spec.specMulti P c.cfg fs c.init c.srcs o) "-" (encObs m)
+        verdict id (encObs m == encObs o && emi) (Spec.specMulti P c.cfg fs c.init c.srcs o && es) "-" (encObs m)
       else
         let m := toObs (bind P c.cfg c.tag c.ty c.init c.src)
-        verdict id (encObs m == encObs o) (Spec.specOK P c.cfg c.tag fs c.init c.src o) "-" (encObs m)
+        verdict id (encObs m == encObs o && emi) (Spec.specOK P c.cfg c.tag fs c.init c.src o && es) "-" (encObs m)
     | _ => s!"{id} bad-case type"
 
 def step (line : String) : String :=
